@@ -179,9 +179,13 @@ class SuperNet(DNAS):
         # a better solution that remains flexible.
         cost = torch.tensor(0, dtype=torch.float32)
         target_list = self._unique_leaf_modules if cost_spec.shared else self._leaf_modules
+        combiners = set()
         for lname, node, layer in target_list:
             if isinstance(layer, SuperNetCombiner):
-                cost = cost + layer.get_cost(cost_spec, cost_fn_map)
+                # once per combiner: it accounts for all the invocations of its branches
+                if layer not in combiners:
+                    combiners.add(layer)
+                    cost = cost + layer.get_cost(cost_spec, cost_fn_map)
             elif 'sn_branches' not in str(node.target) and self.full_cost:
                 # TODO: this is constant and can be pre-computed for efficiency
                 v = vars(layer)
